@@ -156,7 +156,12 @@ CONTRACTS.update({
 # ---------------------------------------------------------------- collaborators of Program.add_einsum (assumed frames)
 CONTRACTS.update({
     "Equation.__init__": dict(params=["self", "equation", "tensors"], assumed=True, returns="None",
-                              modifies=["*.is_output"], raises={"ValueError": None}),
+                              modifies=["*.is_output"], raises={"ValueError": None},
+                              # proved under C18 (Equation.__build_tensors_trees/post[output_first, operands_in_order]):
+                              # the tensors of an Equation are objects of the dictionary it was given
+                              ensures=[("tensors_are_declared_objects",
+                                        "all(any(same_ref(self.get_tensors()[j], tensors[n]) for n in tensors) "
+                                        "    for j in range(len(self.get_tensors())))")]),
     "Equation.get_tensors": dict(params=["self"], assumed=True, observer=True, returns="List[Tensor]"),
     "Equation.get_trees": dict(params=["self"], assumed=True, observer=True, returns="List[Tree]"),
     "Equation.get_output": dict(params=["self"], assumed=True, observer=True, returns="Tensor"),
@@ -174,7 +179,35 @@ CONTRACTS.update({
     "Mapping.get_loop_orders": dict(params=["self"], assumed=True, observer=True, returns="Dict[str, List[str]]"),
     "Mapping.get_spacetime": dict(params=["self"], assumed=True, observer=True, returns="Dict[str, Any]"),
     "Program.__add_ranks": dict(raises={"ValueError": None}, modifies=[], assumed_body=True),
-    "Program.__all_ranks": dict(raises={"ValueError": None}, modifies=[], fresh_result=True, assumed_body=True),
+})
+
+def ets(p):
+    """the tensors of the Einsum the program is configured for"""
+    return p.equation.get_tensors()
+
+
+CONTRACTS.update({
+    # the rank set handed to Partitioning (which decides "is a flattened rank" / "is a partition level" by
+    # membership in it) is exactly the set of ranks of the tensors of THIS Einsum
+    "Program.__all_ranks": dict(
+        pure=True, fresh_result=True,
+        requires=["implies(self.equation is not None, all(wf_tensor(t) for t in ets(self)))"],
+        raises={"ValueError": "self.equation is None"},
+        ensures=[("every_rank_of_this_einsums_tensors",
+                  "all(ets(self)[j].ranks[i] in result for j in range(len(ets(self))) "
+                  "    for i in range(ets(self)[j].rank_ptr, len(ets(self)[j].ranks)))"),
+                 ("only_ranks_of_this_einsums_tensors",
+                  "all(any(ets(self)[j].ranks[i] == x for j in range(len(ets(self))) "
+                  "        for i in range(ets(self)[j].rank_ptr, len(ets(self)[j].ranks))) for x in result)")],
+        ghost_after={"ranks.update(tensor.get_ranks())":
+                     "assert all(tensor.ranks[i] in ranks for i in range(tensor.rank_ptr, len(tensor.ranks)))\n"},
+        loops={0: dict(idx="k", modifies=["ranks[]"],
+                       inv=[("all_so_far", "all(ets(self)[j].ranks[i] in ranks for j in range(k) "
+                                           "    for i in range(ets(self)[j].rank_ptr, len(ets(self)[j].ranks)))"),
+                            ("only_so_far", "forall(lambda x: implies(x in ranks, any(ets(self)[j].ranks[i] == x for j in range(k) "
+                                            "                      for i in range(ets(self)[j].rank_ptr, len(ets(self)[j].ranks)))))"),
+                            ("own", "fresh(ranks)")])},
+    ),
 })
 
 
@@ -197,6 +230,19 @@ _SPECS = [
   partitioning:
     Z:
       M: [uniform_shape(4)]
+"""),
+    ("""einsum:
+  declaration:
+    A: [K, M]
+    U: [P, Q]
+    T: [M]
+    Z: [P]
+  expressions:
+    - T[m] = A[k, m]
+    - Z[p] = U[p, q]
+""", """mapping:
+  loop-order:
+    T: [K, M]
 """),
     ("""einsum:
   declaration:
@@ -258,5 +304,11 @@ def _gen_tu():
         yield t, ()
 
 
-GEN = {"Program.reset": _gen_reset, "Program.add_einsum": _gen_add_einsum, "Program.__init__": _gen_prog_init,
+def _gen_all_ranks():
+    for q, a in _gen_add_einsum():
+        q.add_einsum(a[0])
+        yield q, ()
+
+
+GEN = {"Program.__all_ranks": _gen_all_ranks, "Program.reset": _gen_reset, "Program.add_einsum": _gen_add_einsum, "Program.__init__": _gen_prog_init,
        "TransUtils.next_tmp": _gen_tu, "TransUtils.curr_tmp": _gen_tu}
